@@ -98,42 +98,63 @@ func (p *Prog) locateBCE(s *BCESite) {
 				continue
 			}
 			_ = pos
+			// positions are compared after //line adjustment (normalised sources carry the
+			// original positions of inlined helpers), so containers cannot be pruned by line range
 			var best ast.Node
-			var fn string
+			var fn, bestFn string
+			var stack []ast.Node
 			ast.Inspect(f, func(n ast.Node) bool {
 				if n == nil {
-					return false
+					top := stack[len(stack)-1]
+					stack = stack[:len(stack)-1]
+					if _, ok := top.(*ast.FuncDecl); ok {
+						fn = ""
+					}
+					return true
 				}
-				np := p.Fset.Position(n.Pos())
-				ne := p.Fset.Position(n.End())
-				if np.Line > s.Line || ne.Line < s.Line {
-					return np.Line <= s.Line
-				}
+				stack = append(stack, n)
 				switch x := n.(type) {
 				case *ast.FuncDecl:
 					fn = funcDeclName(x)
 				case *ast.IndexExpr, *ast.SliceExpr:
 					// the compiler reports the position of the '[' or of the index operand
 					lb := lbrackPos(p.Fset, x)
-					if lb.Line == s.Line && (best == nil || absInt(lb.Column-s.Col) < absInt(lbrackPos(p.Fset, best).Column-s.Col)) {
-						best = x
+					if lb.Filename == pos.Filename && lb.Line == s.Line && (best == nil || absInt(lb.Column-s.Col) < absInt(lbrackPos(p.Fset, best).Column-s.Col)) {
+						best, bestFn = x, fn
 					}
 				}
 				return true
 			})
-			s.Func = fn
 			if best == nil {
 				// inlined library code: report the innermost call expression spanning the column
+				fn = ""
 				ast.Inspect(f, func(n ast.Node) bool {
+					if fd, ok := n.(*ast.FuncDecl); ok {
+						fn = funcDeclName(fd)
+					}
 					if call, ok := n.(*ast.CallExpr); ok {
 						a, b := p.Fset.Position(call.Pos()), p.Fset.Position(call.End())
-						if a.Line == s.Line && b.Line == s.Line && a.Column <= s.Col && s.Col <= b.Column {
-							best = call
+						if a.Filename == pos.Filename && a.Line == s.Line && b.Line == s.Line && a.Column <= s.Col && s.Col <= b.Column {
+							best, bestFn = call, fn
 						}
 					}
 					return true
 				})
 			}
+			if best == nil {
+				// nothing on that line: name the function by plain containment
+				ast.Inspect(f, func(n ast.Node) bool {
+					if fd, ok := n.(*ast.FuncDecl); ok {
+						a, b := p.Fset.Position(fd.Pos()), p.Fset.Position(fd.End())
+						if a.Line <= s.Line && s.Line <= b.Line {
+							bestFn = funcDeclName(fd)
+						}
+						return false
+					}
+					return true
+				})
+			}
+			s.Func = bestFn
 			if best != nil {
 				switch x := best.(type) {
 				case *ast.IndexExpr:
